@@ -202,19 +202,24 @@ def oem_group():
         npts = 1 + choice("npts", 3)
         method = ["lagrange", "linear"][choice("method", 2)]
         nseg = 1 + choice("nseg", 2)
+        # the points of an ephemeris need not be stored in cartesian form (an ephemeris of keplerian elements): what is written
+        # is its position and velocity all the same (asked for one-segment, two-point, covariance-free ephemerides)
+        form = ["cartesian", "keplerian"][choice("form", 2)] if (nseg == 1 and npts == 2) else "cartesian"
         segs = []
         cfg_cov = []
         for s in range(nseg):
             pts = []
             for k in range(npts):
                 sv = _mk_sv(frame, scale, k + 10 * s)
-                covf = COV_FRAMES[choice(f"cov{s}_{k}", 4)] if (k < 2 and s == 0) else None
+                covf = COV_FRAMES[choice(f"cov{s}_{k}", 4)] if (k < 2 and s == 0 and form == "cartesian") else None
                 _attach_cov(sv, covf, k)
                 cfg_cov.append(covf)
+                if form != "cartesian":
+                    sv.form = form
                 pts.append(sv)
             segs.append(Ephem(pts, method=method, order=min(7, npts)))
         data = segs[0] if nseg == 1 else segs
-        cfg = dict(fmt=fmt, scale=scale, frame=frame, npts=npts, method=method, nseg=nseg, cov=cfg_cov)
+        cfg = dict(fmt=fmt, scale=scale, frame=frame, npts=npts, method=method, nseg=nseg, cov=cfg_cov, form=form)
         try:
             text = ccsds.dumps(data, fmt=fmt)
             back = ccsds.loads(text)
@@ -297,13 +302,22 @@ def omm_group():
             errs.append(f"user-defined fields -> {back._data.get('ccsds_user_defined')}")
         if (orb.cov is None) != (back.cov is None):
             errs.append("covariance presence changed")
+        # anything that was read can be written again, in either encoding, and says the same
+        for f2 in ("kvn", "xml"):
+            try:
+                twice = ccsds.loads(ccsds.dumps(back, fmt=f2))
+                errs += [f"read ({fmt}) then written ({f2}): {e}" for e in _cmp_sv(back, twice, "rewrite") if "coordinates" not in e]
+                if abs(back.ndotdot - twice.ndotdot) > 1e-9 * max(1.0, abs(back.ndotdot)) + 1e-15 or back.norad_id != twice.norad_id:
+                    errs.append(f"read ({fmt}) then written ({f2}): TLE parameters changed")
+            except Exception as e:  # noqa
+                errs.append(f"what was read ({fmt}) cannot be written again as {f2}: {type(e).__name__}: {e}")
         return cfg, ("; ".join(errs[:3]) if errs else None)
     return _run_group("omm", body, "OMM: mean elements of a TLE orbit (2 objects), covariance or not, user-defined fields or not, KVN and XML")
 
 
 def tdm_group():
     """TDM: a measurement set (any non-empty subset of Range / Azimut / Elevation / Doppler, 1 or 2 observations of each, one-way
-    or two-way path, optionally a second path = second segment, UTC or TAI) written and read back: same types, paths, epochs and
+    or two-way path, optionally a second path = second segment in the same or in another time scale, UTC / TAI / TT) written and read back: same types, paths, epochs and
     values to the written precision (1 mm for ranges and range rates, 0.01 deg for angles); KVN and XML decode alike"""
     from beyond.io import ccsds
     from beyond.dates import Date
@@ -319,18 +333,23 @@ def tdm_group():
         nobs = 1 + choice("nobs", 2)
         two_way = choice("two_way", 2)
         second = choice("second_path", 2)
-        scale = ["UTC", "TAI"][choice("scale", 2)]
+        scale = ["UTC", "TAI", "TT"][choice("scale", 3)]
+        # the second path (= second segment, with its own TIME_SYSTEM) dated in the same scale or in another one (GPS: a constant
+        # 19 s from TAI, so that the difference shows whether EOP data is present or not)
+        scale2 = [scale, "GPS"][choice("scale2", 2)] if second else scale
         d0 = Date(2016, 5, 5, 12, 30, 15, 123456, scale=scale)
         paths = [["STA1", "2016-001A"] + (["STA1"] if two_way else [])] + ([["STA2", "2016-001A", "STA2"]] if second else [])
         ms = MeasureSet([])
         for pi, path in enumerate(paths):
             for k in range(nobs):
                 date = d0 + datetime.timedelta(seconds=10.5 * k + 100 * pi)
+                if pi:
+                    date = date.change_scale(scale2)
                 for j, cls in enumerate(KINDS):
                     if mask & (1 << j):
                         ms.append(cls(path, date, VALS[cls] * (1 + 0.01 * k + 0.1 * pi)))
         cfg = dict(fmt=fmt, types=[c.__name__ for j, c in enumerate(KINDS) if mask & (1 << j)], nobs=nobs, two_way=two_way,
-                   second_path=second, scale=scale)
+                   second_path=second, scale=scale, scale2=scale2)
         try:
             text = ccsds.dumps(ms, fmt=fmt)
             back = ccsds.loads(text)
@@ -344,7 +363,7 @@ def tdm_group():
             errs.append("what was read cannot be written again identically")
         return cfg, ("; ".join(errs[:3]) if errs else None)
     return _run_group("tdm", body, "TDM: measurement sets of Range / Azimut / Elevation / Doppler observations, one-way or two-way, one or "
-                      "two paths, UTC or TAI, KVN and XML")
+                      "two paths (the second in the same or another time scale), UTC / TAI / TT, KVN and XML")
 
 
 def _flatten(x):
